@@ -181,6 +181,8 @@ def lit_str(v):
         return 'b' + repr(bytes(v['v']))[1:]
     if t == 'bool':
         return 'true' if v['v'] else 'false'
+    if t == 'char':
+        return "'%s'" % v['v']
     return str(v['v'])
 
 
@@ -429,3 +431,32 @@ def same_place(a, b):
     if a.get('k') == 'Def':
         return a.get('path') == b.get('path')
     return False
+
+
+def format_template(node):
+    """Best-effort decoding of a format!-family MacroCall's template into a `{}`-style string.
+    Nightly lowers format_args! to a byte program: n (1..127) = n literal bytes follow, 0xC0 = an
+    argument with default formatting, other bytes >= 0x80 = an argument with options, 0 = end."""
+    for t in node.get('tmpl', []):
+        if t['t'] == 'bytes':
+            b = t['v']
+            out = []
+            i = 0
+            while i < len(b) and b[i] != 0:
+                c = b[i]
+                if c < 0x80:
+                    out.append(bytes(b[i + 1:i + 1 + c]).decode('utf-8', 'replace'))
+                    i += 1 + c
+                elif c == 0xC0:
+                    out.append('{}')
+                    i += 1
+                else:
+                    out.append('{?}')
+                    i += 1
+                    # options follow; their length is not modelled: stop decoding
+                    return ''.join(out) + '<opts>'
+            return ''.join(out)
+    strs = [t['v'] for t in node.get('tmpl', []) if t['t'] == 'str']
+    if strs:
+        return '{}'.join(strs)
+    return None
